@@ -68,6 +68,7 @@ Kinds == <<
   [id |-> "k3d", start |-> "code", end |-> "tdq", cont |-> FALSE, opens |-> FALSE, stmt |-> TRUE, needcont |-> TRUE, toks |-> <<"open3d", "text">>],
   [id |-> "kbs", start |-> "code", end |-> "code", cont |-> TRUE, opens |-> FALSE, stmt |-> TRUE, needcont |-> TRUE, toks |-> <<"str", "code", "bs1">>],
   [id |-> "kc3", start |-> "code", end |-> "code", cont |-> FALSE, opens |-> FALSE, stmt |-> TRUE, needcont |-> TRUE, toks |-> <<"str", "comment">>],
+  [id |-> "kc", start |-> "code", end |-> "code", cont |-> FALSE, opens |-> FALSE, stmt |-> TRUE, needcont |-> TRUE, toks |-> <<"str", "comment">>],
   [id |-> "o3sb", start |-> "code", end |-> "tsq", cont |-> FALSE, opens |-> FALSE, stmt |-> TRUE, needcont |-> FALSE, toks |-> <<"code", "open3s", "text", "bs1">>],
   [id |-> "xs", start |-> "tsq", end |-> "tsq", cont |-> FALSE, opens |-> FALSE, stmt |-> TRUE, needcont |-> FALSE, toks |-> <<"text">>],
   [id |-> "xos", start |-> "tsq", end |-> "tsq", cont |-> FALSE, opens |-> FALSE, stmt |-> TRUE, needcont |-> FALSE, toks |-> <<"text">>],
